@@ -229,7 +229,11 @@ class _Ev:
             return {}
         if k == "Call":
             args = [lin.p_str(self.ev(p, a)) for a in nd["ch"][1:]]
-            cal = nd.get("callee") or fn.canon(nd["ch"][0], subst=False)
+            cal = nd.get("callee")
+            if not cal:
+                # a call through a pointer: the function it holds on this path, if known
+                cv_ = lin.p_str(self.ev(p, nd["ch"][0]))
+                cal = cv_ if all(ch.isalnum() or ch == "_" for ch in cv_) else fn.canon(nd["ch"][0], subst=False)
             p.calls.append((cal, args, j))
             p.events.append(("call", cal, args, j))
             if cal not in LOGGING and not (self.P is not None and nd.get("callee") and self.P.is_pure(cal)):
@@ -284,16 +288,19 @@ class _Ev:
                 t = (cval < 0) if op == "<" else (cval == 0)
                 return None, pol, (t == pol)
             if op == "==":
-                if not vb:
-                    return ("nz", lin.p_str(va)), not pol, None
-                if not va:
-                    return ("nz", lin.p_str(vb)), not pol, None
+                for vz, vo in ((vb, va), (va, vb)):
+                    if not vz:
+                        if len(vo) == 1 and list(vo.values()) == [1] and list(vo.keys())[0][0].startswith("&"):
+                            return None, pol, (not pol)      # &x == NULL is false
+                        return ("nz", lin.p_str(vo)), not pol, None
                 sa, sb = sorted((lin.p_str(va), lin.p_str(vb)))
                 return ("==", sa, sb), pol, None
             return ("<", lin.p_str(va), lin.p_str(vb)), pol, None
         v = self.ev(p, j)
         if not v or list(v.keys()) == [()]:
             return None, pol, (bool(v.get((), 0)) == pol)
+        if len(v) == 1 and list(v.values()) == [1] and list(v.keys())[0][0].startswith("&"):
+            return None, pol, pol            # the address of an object is not null
         return ("nz", lin.p_str(v)), pol, None
 
 
@@ -368,14 +375,14 @@ def run_paths(fn, P=None, limit=4096, start=None, stops=None):
     for n_, l_ in enumerate(sorted([x for x in fn.walk() if fn.k(x) in ("For", "While", "Do")], key=lambda x: (fn.line(x), x))):
         loop_no[l_] = n_ + 1
 
-    def havoc(p, b):
+    def havoc(p, b, again=False):
         from . import paths as _paths
         ln = headers[b]
         mem = False
         for s_ in _paths.stores(fn, ln):
             nm = s_["path"]
             if all(ch.isalnum() or ch == "_" for ch in nm):
-                p.env[nm] = lin.p_atom("%s@L%d" % (nm, loop_no[ln]))
+                p.env[nm] = lin.p_atom("%s@L%d%s" % (nm, loop_no[ln], "+" if again else ""))
             else:
                 mem = True
         for v_ in fn.find("Var", root=ln):
@@ -419,30 +426,37 @@ def run_paths(fn, P=None, limit=4096, start=None, stops=None):
         if b in p.blocks:
             if b not in headers:
                 raise AnalysisIncomplete("%s: irreducible flow" % fn.name)
-            # back at the header after one trip through the body: forget what the loop writes once more
-            # and leave through the exit edge (paths with no and with one iteration, each with the
-            # unknown state of "some iterations" before and after)
-            if p.blocks.count(b) > 1 or fn.nodes[headers[b]]["k"] == "Do":
+            # loops are abstracted: the first trip through the body starts from the exact state before
+            # the loop; back at the header everything the loop writes is forgotten ("after some
+            # iterations") and the body may be taken once more from that unknown state; back again, the
+            # state is forgotten once more and the loop is left
+            n_ = p.blocks.count(b)
+            isdo = fn.nodes[headers[b]]["k"] == "Do"
+            if n_ >= 3 or (isdo and n_ >= 2):
                 return
-            havoc(p, b)
-            p.blocks.append(b)
-            step(p, b)
-            conds = {}
-            for (s0, d0, c, pol) in cfg.cond_edges():
-                if s0 == b:
-                    conds[pol] = (d0, c)
-            if False not in conds:
+            havoc(p, b, again=(n_ == 2))
+            if n_ == 1:
+                # the blocks of the first trip may be visited again in the generic trip
+                first = p.blocks.index(b)
+                p.blocks = p.blocks[:first + 1]
+            if n_ == 2:
+                p.blocks.append(b)
+                step(p, b)
+                conds = {}
+                for (s0, d0, c, pol) in cfg.cond_edges():
+                    if s0 == b:
+                        conds[pol] = (d0, c)
+                if False not in conds:
+                    return
+                d0, c = conds[False]
+                key, kpol, decided = ev.cond_key(p, c, False)
+                if decided is False:
+                    return
+                if key is not None:
+                    p.atoms[key] = kpol
+                    p.events.append(("branch", key, kpol, c))
+                go(p, d0)
                 return
-            d0, c = conds[False]
-            key, kpol, decided = ev.cond_key(p, c, False)
-            if decided is False:
-                return
-            if key is not None:
-                p.atoms[key] = kpol
-            go(p, d0)
-            return
-        if b in headers:
-            havoc(p, b)
         p.blocks.append(b)
         step(p, b)
         if b == cfg.exit:
@@ -467,6 +481,7 @@ def run_paths(fn, P=None, limit=4096, start=None, stops=None):
                     if q.atoms.get(key, kpol) != kpol:
                         continue
                     q.atoms[key] = kpol
+                    q.events.append(("branch", key, kpol, c))
                 go(q, d0)
             return
         nxt = [s for s in ss if s is not None]
@@ -479,3 +494,10 @@ def run_paths(fn, P=None, limit=4096, start=None, stops=None):
 
     go(Path(), cfg.entry if start is None else start)
     return out
+
+
+def field_of(term, field):
+    """the lvalue path of `term->field` as the evaluator spells it"""
+    if term.startswith("&") and " + " not in term:
+        return "%s.%s" % (term[1:], field)
+    return "%s->%s" % (_wrap(term), field)
